@@ -51,6 +51,17 @@ static int cmp(const void *a, const void *b) {
     uint8_t x = *(const uint8_t *)a, y = *(const uint8_t *)b;
     return x < y ? -1 : (x > y ? 1 : 0);
 }
+/* the same order through comparators of the other shapes callers write: a plain difference, a scaled one, +-2 */
+static int cmp_diff(const void *a, const void *b) {
+    return (int)*(const uint8_t *)a - (int)*(const uint8_t *)b;
+}
+static int cmp_scaled(const void *a, const void *b) {
+    return ((int)*(const uint8_t *)a - (int)*(const uint8_t *)b) * 1000;
+}
+static int cmp_two(const void *a, const void *b) {
+    uint8_t x = *(const uint8_t *)a, y = *(const uint8_t *)b;
+    return x < y ? -2 : (x > y ? 2 : 0);
+}
 static void arr_open(const char *k) { /* k == NULL: anonymous array inside an array */
     if (k) {
         vh_arr_begin(k);
@@ -97,6 +108,57 @@ static void state(void) {
     }
     vh_arr_end();
     vh_obj_end();
+}
+/* "packed" mode (RESET ... packed): the dynamic lists live in an allocator that hands out blocks back to back, without
+ * headers, padding or red zones (an arena; the library's own small-block allocator behaves like this within a size class), and
+ * the element handed to push / set_at is a block of the same arena, taken right before the call and given back after it -
+ * so it lies directly behind whatever the arena handed out last, typically the list's own storage. */
+#define PK_ARENA (4u << 20)
+#define PK_MAXBLK 4096
+static uint8_t *pk_base, *pk_tip;
+static struct {
+    uint8_t *p;
+    size_t n;
+    bool freed;
+} pk_blk[PK_MAXBLK];
+static int pk_n;
+static bool packed;
+static void *pk_acquire(struct aws_allocator *al, size_t n) {
+    (void)al;
+    if (pk_n >= PK_MAXBLK || pk_tip + n > pk_base + PK_ARENA) {
+        fprintf(stderr, "packed arena exhausted\n");
+        exit(3);
+    }
+    pk_blk[pk_n].p = pk_tip;
+    pk_blk[pk_n].n = n;
+    pk_blk[pk_n].freed = false;
+    pk_n++;
+    pk_tip += n;
+    return pk_tip - n;
+}
+static void pk_release(struct aws_allocator *al, void *p) {
+    (void)al;
+    for (int i = pk_n - 1; i >= 0; --i) {
+        if (pk_blk[i].p == p && !pk_blk[i].freed) {
+            pk_blk[i].freed = true;
+            memset(p, 0xDD, pk_blk[i].n);
+            break;
+        }
+    }
+    while (pk_n > 0 && pk_blk[pk_n - 1].freed) { /* the tip rolls back over released blocks */
+        pk_n--;
+        pk_tip = pk_blk[pk_n].p;
+    }
+}
+static struct aws_allocator pk_allocator = {.mem_acquire = pk_acquire, .mem_release = pk_release};
+/* the element for a storing call: the exact-size scratch block, or in packed mode a fresh arena block */
+static uint8_t *val_begin(void) {
+    return packed ? pk_acquire(NULL, isz) : scratch;
+}
+static void val_end(uint8_t *v) {
+    if (packed) {
+        pk_release(NULL, v);
+    }
 }
 static void teardown(void) {
     if (live) {
@@ -152,6 +214,12 @@ int main(int argc, char **argv) {
             base_blocks = vh_live_blocks;
             isz = (size_t)vh_argi(1);
             scratch = malloc(isz);
+            packed = vh_ntok > 6 && !strcmp(vh_args(6), "packed");
+            if (!pk_base) {
+                pk_base = malloc(PK_ARENA);
+            }
+            pk_tip = pk_base;
+            pk_n = 0;
             long long caps[2];
             for (int k = 1; k <= 2; ++k) {
                 is_static[k] = strcmp(vh_args(2 * k), "static") == 0;
@@ -162,7 +230,7 @@ int main(int argc, char **argv) {
                     memset(storage[k], 0xA5, cap * isz);
                     aws_array_list_init_static(&L[k], storage[k], cap, isz);
                 } else {
-                    aws_array_list_init_dynamic(&L[k], vh_alloc(), cap, isz);
+                    aws_array_list_init_dynamic(&L[k], packed ? &pk_allocator : vh_alloc(), cap, isz);
                 }
             }
             live = true;
@@ -207,12 +275,14 @@ int main(int argc, char **argv) {
         long long sym = 0;
         if (vh_is("PUSHB") || vh_is("PUSHF")) {
             int back = vh_is("PUSHB");
-            fill(scratch, (int)vh_argi(2), (int)vh_argi(3));
-            int rc = back ? aws_array_list_push_back(a, scratch) : aws_array_list_push_front(a, scratch);
+            uint8_t *val = val_begin();
+            fill(val, (int)vh_argi(2), (int)vh_argi(3));
+            int rc = back ? aws_array_list_push_back(a, val) : aws_array_list_push_front(a, val);
             head(back ? "PushBack" : "PushFront", l);
-            vh_int("v", scratch[0]);
-            vh_int("id", id_of(scratch));
+            vh_int("v", val[0]);
+            vh_int("id", id_of(val));
             vh_rc(rc);
+            val_end(val);
         } else if (vh_is("POPB")) {
             int rc = aws_array_list_pop_back(a);
             head("PopBack", l);
@@ -231,13 +301,15 @@ int main(int argc, char **argv) {
             if (sym == -2 && !is_static[l]) {
                 continue; /* a dynamic list would try to allocate nearly SIZE_MAX bytes: outside the environment */
             }
-            fill(scratch, (int)vh_argi(3), (int)vh_argi(4));
-            int rc = aws_array_list_set_at(a, scratch, i);
+            uint8_t *val = val_begin();
+            fill(val, (int)vh_argi(3), (int)vh_argi(4));
+            int rc = aws_array_list_set_at(a, val, i);
             head("SetAt", l);
             vh_int("i", sym);
-            vh_int("v", scratch[0]);
-            vh_int("id", id_of(scratch));
+            vh_int("v", val[0]);
+            vh_int("id", id_of(val));
             vh_rc(rc);
+            val_end(val);
         } else if (vh_is("GET") || vh_is("FRONT") || vh_is("BACK")) {
             int rc;
             memset(scratch, 0xEE, isz);
@@ -277,7 +349,8 @@ int main(int argc, char **argv) {
             vh_int("a", (long long)x);
             vh_int("b", (long long)y);
         } else if (vh_is("SORT")) {
-            aws_array_list_sort(a, cmp);
+            const char *shape = vh_ntok > 2 ? vh_args(2) : "3way";
+            aws_array_list_sort(a, !strcmp(shape, "diff") ? cmp_diff : !strcmp(shape, "scaled") ? cmp_scaled : !strcmp(shape, "two") ? cmp_two : cmp);
             head("Sort", l);
         } else if (vh_is("COPY")) { /* COPY from : into the other list */
             if (aws_array_list_capacity(a) == 0) {
